@@ -11,8 +11,11 @@ EXTENDS Integers, Sequences, FiniteSets, TLC
 
 Eager   == {"list", "tuple", "deque", "set", "frozenset"}
 Lazy    == {"generator", "range", "map", "filter", "zip", "enumerate"}
-Kinds   == {"scalar", "str", "Stream"} \cup Eager \cup Lazy
-OutKind(k) == IF k \in {"scalar", "str"} THEN "scalar" ELSE IF k \in Lazy THEN "generator" ELSE k
+\* Stream subclasses (a ControlStream, a Streamix mixer, a StreamTeeHub) are streams: the result is a Stream
+StreamKinds == {"Stream", "ControlStream", "Streamix", "StreamTeeHub"}
+Kinds   == {"scalar", "str"} \cup StreamKinds \cup Eager \cup Lazy
+OutKind(k) == IF k \in {"scalar", "str"} THEN "scalar" ELSE IF k \in Lazy THEN "generator"
+              ELSE IF k \in StreamKinds THEN "Stream" ELSE k
 Unordered(k) == k \in {"set", "frozenset"}
 
 VARIABLES kind, n
@@ -26,7 +29,7 @@ Closed == OutKind(kind) \in Kinds \cup {"scalar"} /\ (OutKind(kind) # "scalar" =
 Verdict(r) ==
   IF r.outkind # OutKind(r.kind) THEN "container-kind"
   ELSE IF r.kind \in Lazy /\ r.read_at_call # 0 THEN "not-lazy"
-  ELSE IF r.kind = "Stream" /\ r.read_at_call # 0 THEN "not-lazy"
+  ELSE IF r.kind \in StreamKinds /\ r.read_at_call # 0 THEN "not-lazy"
   ELSE IF ~Unordered(r.kind) /\ r.kind \notin {"scalar", "str"} /\ r.outlen # r.n THEN "length"
   ELSE IF ~r.elementwise THEN "value"
   ELSE "ok"
